@@ -106,7 +106,7 @@ def _api(R, unit, tier, only):
             for mm in mms:
                 if (not th or m >= 4) and (kind == "with-empty" or not symm or tab == "V") and (buf, mm) not in ((1, 1), (2, 2), (10 ** 6, 200)):
                     continue   # quick (and four-record lists in thorough): reduced (mergebuf, max_merge) product off the main line
-                for srt in ((True, False) if (buf, mm) == (bufs[0], mms[-1]) and m else (True,)):
+                for srt in ((True, False) if (buf, mm) in ((bufs[0], mms[-1]), (bufs[0], mms[0])) and m else (True,)):
                     kk += 1
                     inner = {"chunks": part, "mergebuf": buf, "max_merge": mm, "sorted": srt}
                     if only is not None and only != inner:
@@ -123,9 +123,15 @@ def _api(R, unit, tier, only):
                     try:
                         chunks = [_chunk_frame([recs[q] for q in blk], sort=srt) for blk in part]
                         try:
+                            # unsorted chunks: sorting is requested; on every other such case the three validity checks are switched
+                            # off as well (the request to sort must not depend on them)
+                            off = (not srt) and kk % 2 == 0
+                            if off:
+                                R.cls("ensure_sorted-with-checks-off")
                             cooler.create_cooler(out, bdf, iter(chunks), columns=["count", "score"], dtypes={"score": float},
                                                  ordered=False, symmetric_upper=symm, mergebuf=buf, max_merge=mm,
-                                                 temp_dir=tdir, ensure_sorted=not srt)
+                                                 temp_dir=tdir, ensure_sorted=not srt,
+                                                 **({"boundscheck": False, "dupcheck": False, "triucheck": False} if off else {}))
                         except Exception as e:
                             R.mismatch("create-raises:" + type(e).__name__, inner, f"{e!s:.300}")
                             e = None
